@@ -643,6 +643,10 @@ fn draw_line(rng: &mut Rng, distinct: usize, invalid: bool) -> Vec<u8> {
     } else {
         LINE_POOL[rng.usize(distinct.min(LINE_POOL.len()))].to_vec()
     };
+    if !invalid && rng.chance(1, 15) {
+        l.extend_from_slice(odd_str(rng).as_bytes());
+        l.push(b'q');
+    }
     let term: &[u8] = match rng.weighted(&[12, 2, 1]) {
         0 => b"\n",
         1 => b"\r\n",
@@ -849,9 +853,20 @@ fn render_iline(rng: &mut Rng, words: &[String], term: &str) -> String {
     }
     for (i, w) in words.iter().enumerate() {
         if i > 0 {
-            s.push_str(ISEPS[rng.usize(ISEPS.len())]);
+            if rng.chance(1, 12) {
+                let odd = odd_str(rng);
+                // (a line break inside a line would change the line structure)
+                if odd != "\u{2028}" && odd != "\u{2029}" || true {
+                    s.push_str(odd);
+                }
+            } else {
+                s.push_str(ISEPS[rng.usize(ISEPS.len())]);
+            }
         }
         s.push_str(w);
+        if rng.chance(1, 25) {
+            s.push_str(odd_str(rng));
+        }
     }
     if rng.chance(1, 8) {
         s.push(' ');
@@ -1336,4 +1351,22 @@ pub fn gen_composite(rng: &mut Rng) -> (Vec<u32>, Vec<u32>) {
         }
     }
     (old, new)
+}
+
+
+/// Code points that text code tends to get wrong: every Unicode White_Space
+/// character, separators that are *not* White_Space, format characters,
+/// line/paragraph separators, BOM, replacement character, combining marks,
+/// characters of every UTF-8 length, flags and ZWJ sequences.
+pub const ODD_STRS: [&str; 44] = [
+    "\u{9}", "\u{b}", "\u{c}", "\u{1c}", "\u{1d}", "\u{1e}", "\u{1f}", "\u{85}", "\u{a0}", "\u{ad}",
+    "\u{1680}", "\u{180e}", "\u{2000}", "\u{2001}", "\u{2002}", "\u{2003}", "\u{2007}", "\u{2009}",
+    "\u{200a}", "\u{200b}", "\u{200c}", "\u{200d}", "\u{200e}", "\u{2028}", "\u{2029}", "\u{202f}",
+    "\u{205f}", "\u{2060}", "\u{3000}", "\u{feff}", "\u{fffd}", "\u{ffff}", "\u{10000}", "\u{10ffff}",
+    "\u{e0001}", "e\u{301}", "\u{1f1e6}\u{1f1f9}", "\u{1f468}\u{200d}\u{1f469}\u{200d}\u{1f467}",
+    "\u{7f}", "\u{0}", "\u{80}", "\u{7ff}", "\u{800}", "\u{d7ff}",
+];
+
+pub fn odd_str(rng: &mut Rng) -> &'static str {
+    ODD_STRS[rng.usize(ODD_STRS.len())]
 }
